@@ -20,6 +20,7 @@ import (
 	"sort"
 	"strings"
 	"sync"
+	"syscall"
 	"time"
 
 	"github.com/ajitpratap0/GoSQLX/pkg/gosqlx"
@@ -166,6 +167,7 @@ type vcase struct {
 		Src  string   `json:"src"`
 		Ins  []string `json:"ins"`
 		Pres string   `json:"pres"`
+		Env  string   `json:"env"`
 	} `json:"case"`
 	Verdict struct {
 		Exit     int   `json:"exit"`
@@ -226,6 +228,28 @@ func verdicts(cases []string) {
 		}(vc)
 	}
 	wg.Wait()
+}
+
+var (
+	otherOnce sync.Once
+	otherDir  string
+)
+
+// otherFileSystem returns a writable directory on another file system than the scratch directories ("" if there is none).
+func otherFileSystem() string {
+	otherOnce.Do(func() {
+		var a, b syscall.Stat_t
+		if syscall.Stat(work, &a) != nil || syscall.Stat("/dev/shm", &b) != nil || a.Dev == b.Dev {
+			return
+		}
+		d, err := os.MkdirTemp("/dev/shm", "verif-c19-tmp-")
+		if err != nil {
+			return
+		}
+		core.RemoveAtExit(d)
+		otherDir = d
+	})
+	return otherDir
 }
 
 func runVerdict(vc vcase) {
@@ -294,7 +318,21 @@ func runVerdict(vc vcase) {
 	case "inline":
 		args = append(args, content[vc.Case.Ins[0]])
 	}
-	r := cli.Run(cli.Opts{Bin: bin, Dir: d, Args: args, Stdin: stdin, Fsize: -1})
+	var env []string
+	switch vc.Case.Env {
+	case "":
+	case "tmpdir-missing":
+		env = []string{"TMPDIR=" + filepath.Join(d, "no-such-directory")}
+	case "tmpdir-elsewhere":
+		other := otherFileSystem()
+		if other == "" {
+			return // no second file system on this machine: the case cannot be stated
+		}
+		env = []string{"TMPDIR=" + other}
+	default:
+		core.Fatalf("unknown environment %q", vc.Case.Env)
+	}
+	r := cli.Run(cli.Opts{Bin: bin, Dir: d, Args: args, Stdin: stdin, Fsize: -1, Env: env})
 	run.Eval(1)
 	key := core.JSON(vc.Case)
 	nontrivial := false
